@@ -16,8 +16,17 @@ Workloads: exhaustive keep-subsets (empty and full included) of all dimension li
 pairs and (dimA, dimB, k) triples in range with random / real / product / single-Dicke / unnormalised vectors, keep_index
 given as set/list/tuple/int/array/unsorted/duplicated, operators non-Hermitian, and numqi's own callers (PureBosonicExt,
 QuantumPureBosonicExt, ABk pre-image operators, symmetric-extension coefficients).
+Regimes: every ORDER of the keep tuple (all permutations incl. 3-cycles, relational: same as the set), alternating kept/traced patterns of 4 and 5
+subsystems with unequal neighbours, the largest sizes of the range (4^5), dimension-1 factors, operators / vectors of tiny, huge and mixed
+magnitudes, exact objects up to symmetry-breaking rounding noise, one zero row / column of the coefficient matrix; torch evaluation modes of
+the reduction (requires_grad / no_grad / non-leaf input: same value). The anchored consumer PureBosonicExt is followed as an OBJECT: after
+every forward() its reported state must be the explicit reduction of ITS OWN current parameters (new parameters first seen under no_grad /
+frozen, in-place update, deepcopy, load_state_dict, second instance, a copy that scaled its own table); the expectation-operator loss,
+get_numerical_range and the qubit symmetric-extension coefficients are judged against the explicit reduction.
 """
 import contextlib
+import copy
+import functools
 import importlib.util
 import itertools
 import math
@@ -64,7 +73,8 @@ DECIDING = ['numqi.utils.partial_trace', 'relation/two-step==one-step', 'numqi.d
             'numqi.dicke.Dicke', 'numqi.dicke.get_dicke_basis', 'numqi.dicke.get_partial_trace_ABk_to_AB_index',
             'relation/index-form==tensor-form', 'numqi.dicke.partial_trace_ABk_to_AB', 'numqi.dicke.get_qubit_dicke_partial_trace',
             'relation/torch==numpy', 'reduction/every-copy-kept', 'relation/layout-independent', 'history/edit-result-then-call-again',
-            'history/work-buffer', 'history/call-order']
+            'history/work-buffer', 'history/call-order', 'relation/keep-order-independent', 'relation/evaluation-mode-independent',
+            'consumer/value-against-explicit-reduction', 'lifecycle/model-state']
 
 C_TOL = 100.0
 EPS64 = 2.3e-16
@@ -653,6 +663,88 @@ def keep_variants(rng, keep, n, idx):
     return out
 
 
+def run_ptrace_regimes(ctx, numqi):
+    """orders of the keep tuple (all permutations incl. 3-cycles), alternating kept/traced patterns, the largest sizes of the quantified range,
+    dimension-1 factors, and numerical regimes (tiny / huge / mixed magnitudes, exact objects up to rounding noise that breaks their symmetry)"""
+    rng = ctx.rng
+    U = numqi.utils
+    randc = lambda *sh: rng.normal(size=sh) + 1j * rng.normal(size=sh)
+    forms = [tuple, list, lambda t: np.array(t, dtype=np.int64), lambda t: [np.int64(x) for x in t]]
+
+    def ordered(a, dims, perm, idx, opname):
+        kv = forms[idx % len(forms)](perm)
+        ctx.set_case({'op': opname, 'dim': list(dims), 'keep_index': repr(kv)})
+        with ctx.guard('partial_trace/keep-order'):
+            r = U.partial_trace(a, dims, kv)  # judged by the contract (kept subsystems in ascending order)
+            with ctx.quiet():
+                r0 = U.partial_trace(a, dims, set(int(x) for x in perm))
+            ok = np.shape(r) == np.shape(r0)
+            kind = 'sorted' if list(perm) == sorted(perm) else ('reversed' if list(perm) == sorted(perm, reverse=True) else 'cyclic-or-mixed')
+            ctx.check(ok and float(np.abs(np.asarray(r) - np.asarray(r0)).max()) <= 1e-12 * (1 + float(np.abs(a).max())), f'partial_trace/depends-on-the-order-of-keep_index/{kind}',
+                      'the result for an ordered keep_index differs from the result for the same subsystems given as a set', {'dim': list(dims), 'keep_index': repr(kv)},
+                      point='relation/keep-order-independent')
+
+    ctx.workload('exhaustive')
+    idx = 0
+    for dims in [(2, 3, 4), (4, 3, 2), (3, 2, 4, 2), (2, 3, 2, 3)]:
+        D = int(np.prod(dims))
+        a = randc(D, D)
+        for size in range(1, 4):
+            for sub in itertools.combinations(range(len(dims)), size):
+                for perm in itertools.permutations(sub):
+                    idx += 1
+                    ordered(a, dims, perm, idx, 'partial_trace-keep-order')
+    # alternating kept / traced subsystems with unequal neighbours, every order of the kept ones
+    for dims, keeps in [((2, 3, 2, 3), [(1, 3), (0, 2)]), ((2, 3, 2, 3, 2), [(0, 2, 4), (1, 3)]), ((3, 2, 4, 2, 3), [(0, 2, 4), (1, 3), (0, 4)])]:
+        D = int(np.prod(dims))
+        a = randc(D, D)
+        for keep in keeps:
+            for perm in itertools.permutations(keep):
+                idx += 1
+                ordered(a, dims, perm, idx, 'partial_trace-alternating-pattern')
+    ctx.extra['keep_order_cases'] = idx
+    ctx.workload('corner')
+    # the largest sizes of the quantified range: 5 subsystems of dimension up to 4
+    big_lists = [((4, 4, 4, 4), [(0, 2), (3,), (1, 2, 3)]), ((4, 3, 4, 3, 4), [(0, 2, 4), (3, 1)]), ((4, 4, 4, 4, 4), [(1, 3), (4, 0, 2)])]
+    if ctx.tier == 'thorough':
+        big_lists += [((4, 4, 4, 4, 4), [(0,), (4,), (0, 1, 2, 3), (2, 3, 4, 1)]), ((3, 4, 4, 4, 3), [(1, 2, 3), (0, 4)]), ((4, 4, 3, 4, 4), [(2,), (0, 1, 3, 4)])]
+    for dims, keeps in big_lists:
+        D = int(np.prod(dims))
+        a = randc(D, D)
+        for keep in keeps:
+            idx += 1
+            ordered(a, dims, keep, idx, 'partial_trace-largest-sizes')
+    # subsystems of dimension 1 (kept, traced, first, last, in the middle)
+    for dims in [(2, 1, 3), (1, 2, 1), (1, 1, 3), (3, 1, 1, 2)]:
+        D = int(np.prod(dims))
+        a = randc(D, D)
+        for size in range(0, len(dims) + 1):
+            for sub in itertools.combinations(range(len(dims)), size):
+                ctx.set_case({'op': 'partial_trace-dimension-1-factor', 'dim': list(dims), 'keep_index': list(sub)})
+                with ctx.guard('partial_trace/keep-empty' if size == 0 else 'partial_trace'):
+                    U.partial_trace(a, dims, list(sub)[::-1] if size > 1 else set(sub))
+    # numerical regimes (the map is linear: judged relative to the largest entry of the operator)
+    for dims, keep in [((2, 3, 2), (0, 2)), ((3, 4), (1,)), ((2, 2, 2, 3), (3, 1))]:
+        D = int(np.prod(dims))
+        z = randc(D, D)
+        herm = z + z.conj().T
+        w = randc(D, 2)
+        dm = w @ w.conj().T
+        dm = dm / np.trace(dm)
+        facs = [randc(d, d) for d in dims]
+        facs[1] = facs[1] * 1e-9
+        mixed = functools.reduce(np.kron, facs)
+        ops = {'magnitude-1e-12': z * 1e-12, 'magnitude-1e9': z * 1e9, 'hermitian+noise-1e-9': herm + 1e-9 * randc(D, D), 'hermitian+noise-1e-11': herm + 1e-11 * randc(D, D),
+               'dm+noise-1e-11': dm + 1e-11 * randc(D, D), 'identity+noise-1e-11': np.eye(D) + 1e-11 * randc(D, D), 'real+imaginary-noise-1e-11': z.real + 1e-11j * rng.normal(size=(D, D)),
+               'product-with-one-factor-of-magnitude-1e-9': mixed, 'rows-of-mixed-magnitudes': z * (10.0**rng.integers(-9, 10, size=(D, 1))),
+               'maximally-mixed+1e-10-traceless': np.eye(D) / D + 1e-10 * (herm - np.trace(herm) / D * np.eye(D)), 'complex64-magnitude-1e-6': (z * 1e-6).astype(np.complex64)}
+        for name, a in ops.items():
+            for kv in (set(keep), list(keep)):
+                ctx.set_case({'op': 'partial_trace-regime', 'name': name, 'dim': list(dims), 'keep_index': repr(kv)})
+                with ctx.guard('partial_trace'):
+                    U.partial_trace(a, dims, kv)
+
+
 def run_ptrace(ctx, numqi, shard):
     rng = ctx.rng
     ctx.workload('exhaustive')
@@ -709,6 +801,8 @@ def run_ptrace(ctx, numqi, shard):
                 ctx.check(np.shape(r) == expect.shape and np.abs(r - expect).max() <= C_TOL * EPS64 * int(np.prod(dims)) * max(sc, float(np.abs(full).max())),
                           'partial_trace/product-operator-closed-form', 'partial trace of a Kronecker product is not the product of kept factors times traces of the others',
                           {'dim': list(dims), 'keep_index': list(keep)})
+    if shard['part'] == shard['nparts'] - 1:
+        run_ptrace_regimes(ctx, numqi)
     for d in (2, 3, 4):
         psi = np.eye(d).reshape(-1) / np.sqrt(d)
         rho = np.outer(psi, psi)
@@ -810,6 +904,23 @@ def make_vectors(rng, dimA, dimB, k, nd, thorough):
         out['single-dicke-state'] = e
         sp = z * (rng.random(size=z.shape) < 0.3)
         out['sparse'] = sp if np.abs(sp).max() > 0 else z
+    # numerical / shape regimes (judged relative to |psi|^2): tiny and huge norms, ONE zero row (a level of A without amplitude) / ONE zero
+    # column (an unused Dicke state) that must not leak into the other entries, rows of very different magnitudes, exact objects up to
+    # rounding noise (a real vector with imaginary noise: the transposed result differs from the right one only at that level)
+    e1 = np.zeros((dimA, nd), dtype=np.complex128)
+    e1[int(rng.integers(dimA)), int(rng.integers(nd))] = 1
+    zr = z2.copy()
+    zr[int(rng.integers(dimA))] = 0
+    zc = z2.copy()
+    zc[:, int(rng.integers(nd))] = 0
+    regimes = {'norm-1e-9': z / np.linalg.norm(z) * 1e-9, 'norm-1e6': z / np.linalg.norm(z) * 1e6, 'one-zero-row': zr, 'one-zero-column': zc,
+               'rows-of-mixed-magnitudes': z * (10.0**rng.integers(-8, 1, size=(dimA, 1))), 'columns-of-mixed-magnitudes': z * (10.0**rng.integers(-8, 1, size=(1, nd))),
+               'real+imaginary-noise-1e-11': z.real / np.linalg.norm(z.real) + 1e-11j * rng.normal(size=z.shape),
+               'single-dicke-state+noise-1e-11': e1 + 1e-11 * z2}
+    names = sorted(regimes)
+    pick = names if thorough else [names[(dimA + 2 * dimB + 3 * k + t) % len(names)] for t in (0, 3)]
+    for nm in pick:
+        out['regime/' + nm] = regimes[nm]
     return out
 
 
@@ -840,7 +951,19 @@ def run_abk(ctx, numqi, torch, backend):
                         r = Dk.partial_trace_ABk_to_AB(torch.from_numpy(vv.copy()), Bt)
                         if kind == 'random-normalised':
                             g = torch.from_numpy(vv.copy()).requires_grad_(True)
-                            Dk.partial_trace_ABk_to_AB(g, Bt).real.sum().backward()
+                            rg_ = Dk.partial_trace_ABk_to_AB(g, Bt)
+                            rg_.real.sum().backward()
+                            # evaluation modes: the VALUE must not depend on requires_grad / torch.no_grad() / the input being a non-leaf of a graph
+                            outs = {'input-requires-grad': rg_}
+                            with torch.no_grad():
+                                outs['no_grad'] = Dk.partial_trace_ABk_to_AB(torch.from_numpy(vv.copy()), Bt)
+                                outs['no_grad+input-requires-grad'] = Dk.partial_trace_ABk_to_AB(torch.from_numpy(vv.copy()).requires_grad_(True), Bt)
+                            outs['non-leaf-input-of-a-graph'] = Dk.partial_trace_ABk_to_AB(torch.from_numpy(vv.copy()).requires_grad_(True) * 1.0, Bt)
+                            for mode, ro in outs.items():
+                                ro = npy(ro)
+                                ctx.check(ro.shape == npy(r).shape and float(np.abs(ro - npy(r)).max()) <= 10 * (EPS32 if prec == 'f32' else EPS64) * max(nd, 4),
+                                          f'partial_trace_ABk_to_AB/torch/evaluation-mode-changes-value/{mode}', f'the reduction of the same numbers differs between a plain tensor and the mode "{mode}"',
+                                          {'dimA': dimA, 'dimB': dimB, 'k': k, 'prec': prec}, point='relation/evaluation-mode-independent')
                     else:
                         Bn = Bij if prec == 'f64' else [(x[0], x[1], x[2].astype(np.float32)) for x in Bij]
                         r = Dk.partial_trace_ABk_to_AB(vv, Bn)
@@ -883,6 +1006,130 @@ def run_abk(ctx, numqi, torch, backend):
             ctx.set_case({'op': 'reduce-dtype-layout', 'dimA': dimA, 'dimB': dimB, 'k': k, 'backend': backend, 'variant': name})
             with ctx.guard(f'abk/{backend}/dtype-layout'):
                 Dk.partial_trace_ABk_to_AB(st, tb)
+
+
+def run_model_consumers(ctx, numqi, torch):
+    """the anchored consumer entangle/pureb.py (PureBosonicExt) as an OBJECT: after every forward() the reduced state it reports must be the
+    explicit reduction (reference Dicke embedding + explicit trace) of ITS OWN current parameters - in every evaluation mode (autograd / no_grad /
+    frozen parameters) and through the object's life (deepcopy, load_state_dict, in-place parameter update, a second instance); its less
+    prominent entry points (expectation-operator loss, get_numerical_range) are judged against the same explicit reduction."""
+    rng = ctx.rng
+    big = ctx.tier == 'thorough'
+    ctx.workload('realistic')
+
+    def explicit_dm(model, dimA, dimB, k):
+        with torch.no_grad():
+            with ctx.quiet():
+                psi = npy(model.manifold()).reshape(dimA, -1)
+        return rd.reduce_explicit(psi, k, dimB)
+
+    def check_model(model, dimA, dimB, k, stage, mode='grad'):
+        """one forward() in the given mode, then: reported state == explicit reduction of the model's current parameters"""
+        ctx.set_case({'op': 'PureBosonicExt/lifecycle', 'dimA': dimA, 'dimB': dimB, 'kext': k, 'stage': stage, 'mode': mode})
+        with (torch.no_grad() if mode == 'no_grad' else contextlib.nullcontext()):
+            loss = model()
+        got = npy(model.dm_torch)
+        want = explicit_dm(model, dimA, dimB, k)
+        ok = got.shape == want.shape
+        ctx.check(ok and float(np.abs(got - want).max()) <= 1e-12, f'PureBosonicExt/{stage}/reported-state!=explicit-reduction-of-its-parameters',
+                  f'PureBosonicExt ({stage}, {mode}): dm_torch after forward() is not the explicit reduction (Dicke embedding, trace of k-1 copies) of the state its own current parameters describe',
+                  {'dimA': dimA, 'dimB': dimB, 'kext': k, 'max_abs_err': float(np.abs(got - want).max()) if ok else None}, point='lifecycle/model-state')
+        return float(loss), got
+
+    def set_params(model, vals=None):
+        with torch.no_grad():
+            for p in model.parameters():
+                p.copy_(torch.from_numpy(rng.normal(size=tuple(p.shape))) if vals is None else vals)
+
+    triples = [(2, 2, 2), (2, 3, 2), (3, 2, 3)] + ([(2, 2, 4), (3, 3, 2), (2, 4, 3)] if big else [])
+    for dimA, dimB, k in triples:
+        with driver(ctx, 'lifecycle/PureBosonicExt'):
+            D = dimA * dimB
+            w = rng.normal(size=(D, D)) + 1j * rng.normal(size=(D, D))
+            rho = w @ w.conj().T
+            rho = rho / np.trace(rho)
+            m1 = numqi.entangle.PureBosonicExt(dimA, dimB, kext=k, distance_kind='gellmann')
+            m1.set_dm_target(rho)
+            set_params(m1)
+            check_model(m1, dimA, dimB, k, 'fresh')
+            # evaluation modes: NEW parameters, first evaluated under no_grad / with frozen parameters (nothing of an earlier call may be reused), then with
+            # autograd: same parameters => same value in every mode
+            set_params(m1)
+            l_ng, dm_b = check_model(m1, dimA, dimB, k, 'new-parameters-first-seen-under-no_grad', 'no_grad')
+            l_grad, dm_a = check_model(m1, dimA, dimB, k, 'same-parameters-with-autograd')
+            set_params(m1)
+            for p in m1.parameters():
+                p.requires_grad_(False)
+            l_fr, dm_c = check_model(m1, dimA, dimB, k, 'new-parameters-first-seen-frozen')
+            for p in m1.parameters():
+                p.requires_grad_(True)
+            l_g2, dm_d = check_model(m1, dimA, dimB, k, 'same-parameters-unfrozen')
+            ctx.check(max(abs(l_grad - l_ng), abs(l_g2 - l_fr)) <= 1e-13 and max(float(np.abs(dm_a - dm_b).max()), float(np.abs(dm_d - dm_c).max())) <= 1e-13,
+                      'PureBosonicExt/evaluation-mode-changes-value', 'loss / reduced state of the same parameters differ between autograd, torch.no_grad() and frozen parameters',
+                      {'dimA': dimA, 'dimB': dimB, 'kext': k, 'losses': [l_grad, l_ng, l_g2, l_fr]}, point='relation/evaluation-mode-independent')
+            # in-place parameter update, then call again
+            set_params(m1)
+            check_model(m1, dimA, dimB, k, 'after-in-place-parameter-update')
+            theta1 = [p.detach().clone() for p in m1.parameters()]
+            # deepcopy, new parameters for the copy: the copy is a function of ITS parameters, the original of its own
+            m2 = copy.deepcopy(m1)
+            set_params(m2)
+            _, dm2 = check_model(m2, dimA, dimB, k, 'deepcopy-with-new-parameters')
+            _, dm1 = check_model(m1, dimA, dimB, k, 'original-after-the-copy-was-used')
+            ctx.check(all(bool((p == q).all()) for p, q in zip(m1.parameters(), theta1)), 'PureBosonicExt/deepcopy/shares-parameters-with-the-original',
+                      'updating the parameters of a deepcopy changed the parameters of the original', {'dimA': dimA, 'dimB': dimB, 'kext': k}, point='lifecycle/model-state')
+            check_model(m2, dimA, dimB, k, 'deepcopy-second-call')
+            # load_state_dict into a second, independently constructed instance: same state as the source; then its own new parameters
+            m3 = numqi.entangle.PureBosonicExt(dimA, dimB, kext=k, distance_kind='gellmann')
+            m3.set_dm_target(rho)
+            m3.load_state_dict(m1.state_dict())
+            _, dm3 = check_model(m3, dimA, dimB, k, 'load_state_dict')
+            ctx.check(float(np.abs(dm3 - dm1).max()) <= 1e-13, 'PureBosonicExt/load_state_dict/state-differs-from-the-source',
+                      'an instance loaded with the state_dict of another reports a different reduced state', {'dimA': dimA, 'dimB': dimB, 'kext': k}, point='lifecycle/model-state')
+            set_params(m3)
+            check_model(m3, dimA, dimB, k, 'load_state_dict-then-new-parameters')
+            check_model(m1, dimA, dimB, k, 'original-after-a-second-instance-was-used')
+            # a caller may scale ITS OWN index table (e.g. fold a factor in): a second instance must not see it
+            for x in m2.Bij:
+                x[2].mul_(0.5)
+            check_model(m3, dimA, dimB, k, 'other-instance-after-one-instance-scaled-its-table')
+            check_model(m1, dimA, dimB, k, 'original-after-the-copy-scaled-its-table')
+            # less prominent entry point: the expectation-operator loss == Tr(op rho_AB) with the EXPLICIT reduction
+            op = rng.normal(size=(D, D)) + 1j * rng.normal(size=(D, D))
+            op = op + op.conj().T
+            m1.set_expectation_op(op)
+            for mode in ('grad', 'no_grad'):
+                loss, _ = check_model(m1, dimA, dimB, k, 'expectation-op', mode)
+                want = float(np.trace(op @ explicit_dm(m1, dimA, dimB, k)).real)
+                ctx.check(abs(loss - want) <= 1e-11 * (1 + float(np.abs(op).max()) * D), f'consumer/PureBosonicExt/expectation-loss!=Tr(op rho_AB)/{mode}',
+                          'the expectation-operator loss is not Tr(op rho_AB) with rho_AB the explicit reduction of the current parameters',
+                          {'dimA': dimA, 'dimB': dimB, 'kext': k, 'loss': loss, 'expected': want}, point='consumer/value-against-explicit-reduction')
+    # get_numerical_range: every returned point is (Tr(op0 rho), Tr(op1 rho)) of the state the model reports; a reduced STATE lies in the numerical
+    # range of all states (support function <= largest eigenvalue), and the last point belongs to the state left in dm_torch
+    for dimA, dimB, k in [(2, 2, 2)] + ([(2, 3, 3)] if big else []):
+        ctx.set_case({'op': 'PureBosonicExt.get_numerical_range', 'dimA': dimA, 'dimB': dimB, 'kext': k})
+        with driver(ctx, 'consumer/PureBosonicExt.get_numerical_range'):
+            D = dimA * dimB
+            ops = []
+            for _ in range(2):
+                z = rng.normal(size=(D, D)) + 1j * rng.normal(size=(D, D))
+                ops.append(z + z.conj().T)
+            model = numqi.entangle.PureBosonicExt(dimA, dimB, kext=k)
+            nth = 3 if not big else 6
+            pts = np.asarray(model.get_numerical_range(ops[0], ops[1], num_theta=nth, converge_tol=1e-6, num_repeat=1, use_tqdm=False, seed=int(rng.integers(2**31))))
+            ok = pts.shape == (nth, 2)
+            ctx.check(ok, 'consumer/get_numerical_range/shape', 'get_numerical_range did not return (num_theta, 2) points', {'shape': pts.shape}, point='consumer/value-against-explicit-reduction')
+            if ok:
+                want_last = [float(np.trace(x @ explicit_dm(model, dimA, dimB, k)).real) for x in ops]
+                ctx.check(float(np.abs(pts[-1] - want_last).max()) <= 1e-10 * D * float(max(np.abs(x).max() for x in ops)), 'consumer/get_numerical_range/point!=expectation-in-the-explicit-reduction',
+                          'the last point is not (Tr(op0 rho), Tr(op1 rho)) with rho the explicit reduction of the parameters the optimiser left in the model',
+                          {'got': pts[-1], 'expected': want_last}, point='consumer/value-against-explicit-reduction')
+                worst = -np.inf
+                for t, pt in zip(np.linspace(0, 2 * np.pi, nth), pts):
+                    worst = max(worst, float(np.cos(t) * pt[0] + np.sin(t) * pt[1] - np.linalg.eigvalsh(np.cos(t) * ops[0] + np.sin(t) * ops[1])[-1]))
+                ctx.check(worst <= 1e-9, 'consumer/get_numerical_range/point-outside-the-range-of-all-states', 'a boundary point of the bosonic-extension numerical range lies outside the '
+                          'numerical range of ALL states (its support function exceeds the largest eigenvalue): the reported reduction is not a state', {'excess': worst},
+                          point='consumer/value-against-explicit-reduction')
 
 
 def run_realistic(ctx, numqi, torch):
@@ -962,19 +1209,26 @@ def run_realistic(ctx, numqi, torch):
                     worst = max(worst, float(np.abs(got - want).max()))
                 ctx.check(worst < 1e-10, f'get_ABk_gellmann_preimage_op/{kind}/expectation-differs-from-explicit-reduction',
                           '<psi|lift(G_i)|psi> differs from Tr[G_i rho_AB] with rho_AB from the explicit embedding and trace', {'max_abs_err': worst})
-        for k in (1, 2, 3, 5) + ((8,) if big else ()):
-            ctx.set_case({'op': 'get_symmetric_extension_irrep_coeff', 'dim': 2, 'kext': k})
-            with driver(ctx, 'realistic/get_symmetric_extension_irrep_coeff'):
-                numqi.group.symext.get_symmetric_extension_irrep_coeff(2, k)
-        # reduced states of numqi's named multi-qubit states through the general partial trace
-        for n in (3, 4, 5):
-            for name, v in [('W', numqi.state.W(n)), ('GHZ', numqi.state.GHZ(n))]:
-                ctx.set_case({'op': 'named-state-marginals', 'state': name, 'n': n})
-                with driver(ctx, 'realistic/named-state-marginals'):
-                    rho = np.outer(v, v.conj())
-                    for keep in rp.all_keep_subsets(n, include_empty=True):
-                        with ctx.guard('partial_trace/keep-empty' if len(keep) == 0 else 'partial_trace'):
-                            numqi.utils.partial_trace(rho, [2] * n, keep)
+    for k in (1, 2, 3, 5) + ((8,) if big else ()):
+        ctx.set_case({'op': 'get_symmetric_extension_irrep_coeff', 'dim': 2, 'kext': k})
+        with driver(ctx, 'realistic/get_symmetric_extension_irrep_coeff'):
+            coeff, mult = numqi.group.symext.get_symmetric_extension_irrep_coeff(2, k)
+            # (consumer of the dense table in another module) for qubits the only irrep used is the symmetric one: coeff[a,b,r,s] = B[r,s,a,b]
+            want = rd.B_tensor(k, 2).transpose(2, 3, 0, 1)
+            ok = len(coeff) == 1 and tuple(mult) == (1,) and np.shape(coeff[0]) == want.shape
+            ctx.check(ok and float(np.abs(np.asarray(coeff[0]) - want).max()) <= 1e-13, 'consumer/get_symmetric_extension_irrep_coeff/qubit-coefficients!=explicit-contraction',
+                      'the qubit symmetric-extension coefficients are not B[r,s,a,b] (explicit contraction of the reference Dicke basis) with the index pairs exchanged',
+                      {'kext': k}, point='consumer/value-against-explicit-reduction')
+    run_model_consumers(ctx, numqi, torch)
+    # reduced states of numqi's named multi-qubit states through the general partial trace
+    for n in (3, 4, 5):
+        for name, v in [('W', numqi.state.W(n)), ('GHZ', numqi.state.GHZ(n))]:
+            ctx.set_case({'op': 'named-state-marginals', 'state': name, 'n': n})
+            with driver(ctx, 'realistic/named-state-marginals'):
+                rho = np.outer(v, v.conj())
+                for keep in rp.all_keep_subsets(n, include_empty=True):
+                    with ctx.guard('partial_trace/keep-empty' if len(keep) == 0 else 'partial_trace'):
+                        numqi.utils.partial_trace(rho, [2] * n, keep)
 
 
 # ----------------------------------------------------------------------------------------------- histories
